@@ -322,6 +322,10 @@ def ctor_cases():
     add("AC.query(beyond)", lambda: AnnotationCollection(genes=[gene()], parent_or_seq_chunk_parent=chrom()).query_by_position(0, N + 9))
     add("AC.query(coding_only, with variants)", lambda: AnnotationCollection(genes=[gene()], variant_collections=[VariantIntervalCollection(
         [VariantInterval(2, 3, "G", "SNV", parent_or_seq_chunk_parent=chrom())], parent_or_seq_chunk_parent=chrom())], parent_or_seq_chunk_parent=chrom()).query_by_position(0, 14, coding_only=True))
+    # a coordinate 0 is a coordinate, not "not given": ranges that leave the explicit bounds [3,12) through position 0 are refused
+    acb = lambda: AnnotationCollection(genes=[gene()], start=0, end=14, parent_or_seq_chunk_parent=chrom()).query_by_position(3, 12, completely_within=False)
+    for qs, qe in ((0, 8), (5, 0), (0, 0), (0, 12), (3, 0)):
+        add(f"AC[3,12).query({qs},{qe})", lambda qs=qs, qe=qe: acb().query_by_position(qs, qe, completely_within=False), must_refuse=True)
     add("AC.query_by_guids(unknown)", lambda: AnnotationCollection(genes=[gene()]).query_by_guids([uuid.UUID(int=1)]))
     add("AC.query_by_feature_identifiers(unknown)", lambda: AnnotationCollection(genes=[gene()]).query_by_feature_identifiers(["nope"]))
     # models
@@ -397,6 +401,10 @@ def ctor_cases():
             for pn, pf in (("none", lambda: None), ("chrom", chrom)):
                 add(f"SYS {cname}(blocks:{nname},{pn})", lambda fn=fn, kw=kw, pf=pf: fn(kw, pf()))
         if "frames" in base:
+            # blocks given out of order AND a frames list of the wrong length: refused like the ordered case
+            for vname, fr_ in (("short", [Z]), ("long", [Z, O, T])):
+                kw = dict(starts=list(reversed(base["starts"])), ends=list(reversed(base["ends"])), frames=fr_)
+                add(f"SYS {cname}(order:reversed + frames:{vname})", lambda fn=fn, kw=kw: fn(kw, chrom()), must_refuse=True)
             add(f"SYS {cname}(all lists empty)", lambda fn=fn, base=base: fn({k_: [] for k_ in base}, chrom()))
     # from_single_intervals: every ordered pair of blocks whose parents are of two DIFFERENT kinds must be refused
     # (mismatched / missing parents), every pair of the same kind gives a well-formed location
